@@ -125,7 +125,7 @@ class Poly:
 
 Resolver = Callable[[ast.AST], Optional[Poly]]
 
-TRANSPARENT_CALLS = {"float", "complex", "np.float64", "numpy.float64",
+TRANSPARENT_CALLS = {"float", "complex", "np.float64", "numpy.float64", "list", "tuple",
                      "np.asarray", "np.array"}
 
 
